@@ -177,6 +177,8 @@ def check_ctr_backend(rep, fb):
             base = T.ivar(w, "self.%s.%s" % (fname, ctrf))
             rep.ob("ctr.ks.advance", inst, T.iequal(cn[2][ctrf][1], T.iadd(base, T.iconst(w, 1)), F), "one block generated => counter + 1", loc_of(be.one), computed=T.ishow(cn[2][ctrf][1]))
             rep.ob("ctr.ks.data-independent", inst, "out_old" not in T.bvars(out[1]) and "out_old" not in _names(cn), "keystream and counter do not depend on the buffer contents", loc_of(be.one))
+            if be.tail is not None:
+                rep.undecided("par.tail-override", inst, "gen_tail_blocks overridden; no rule built for it", loc_of(be.tail))
             if be.par is not None:
                 pout, pst, pp = kernel_summary(fb, be, be.par, alias=False, ctx=fa.ctx, F=F.copy())
                 _unproved(rep, "ctr.no-panic", inst + "::gen_par_ks_blocks", pp, be.par)
@@ -283,7 +285,8 @@ def check_belt(rep, fb, parts=("def", "rem", "pos", "par", "export")):
         sf = sfields[0]
         of = fmap[sf]
         p, b = run("InnerIvInit", "inner_iv_init", ["c", "IV"])
-        init = p["ret"][2]
+        from .modes import flatten_value
+        init = flatten_value(p["ret"])      # dotted paths: the two words may live in a nested plain struct
         T.declare_var("IV", lin(16))
         s0 = S.belt_s0(T.bvar("IV"), F)
         ints = [k for k, v in init.items() if v[0] == "int"]
@@ -299,6 +302,8 @@ def check_belt(rep, fb, parts=("def", "rem", "pos", "par", "export")):
             rep.ob("belt.ks.advance", inst, T.iequal(st[sf][1], T.iadd(base, T.iconst(w, 1)), F), "s advances by exactly 1 (wrapping)", loc_of(be.one), computed=T.ishow(st[sf][1]))
             rep.ob("belt.ks.data-independent", inst, "out_old" not in T.bvars(out[1]), "keystream independent of the buffer", loc_of(be.one))
             _unproved(rep, "belt.no-panic", inst + "::gen_ks_block", pth, be.one)
+        if be.tail is not None:
+            rep.undecided("par.tail-override", inst, "gen_tail_blocks overridden; no rule built for it", loc_of(be.tail))
         if "par" in parts and be.par is not None:
             pout, pst, pp = kernel_summary(fb, be, be.par, alias=False, ctx=belt_ctx(), F=F.copy())
             j = T.fresh("$bj")
@@ -311,7 +316,9 @@ def check_belt(rep, fb, parts=("def", "rem", "pos", "par", "export")):
             rep.ob("par.closed-form.state", inst, T.iequal(pst[sf][1], T.iadd(base, T.isize(w, NPAR)), F), "s + n after a parallel call", loc_of(be.par), computed=T.ishow(pst[sf][1]))
             _unproved(rep, "belt.no-panic", inst + "::gen_par_ks_blocks", pp, be.par)
         sv = T.ivar(w, "self." + of)
-        si = T.ivar(w, "self." + other[0]) if other else None
+        if not other:
+            raise Undecided("the core keeps no second 128-bit word (initial counter) next to `%s`" % of)
+        si = T.ivar(w, "self." + other[0])
         if "rem" in parts:
             p3, b3 = run("StreamCipherCore", "remaining_blocks", ["self"])
             want = ("symopt", ("ok", ("try_usize", T.isub(T.iconst(w, (1 << w) - 1), T.isub(sv, si)))))
@@ -320,7 +327,7 @@ def check_belt(rep, fb, parts=("def", "rem", "pos", "par", "export")):
             p4, b4 = run("StreamCipherSeekCore", "get_block_pos", ["self"])
             rep.ob("pos.get", inst, T.iequal(p4["ret"][1], T.isub(sv, si), F), "get_block_pos == s - s_init (blocks generated)", loc_of(b4), computed=T.ishow(p4["ret"][1]))
             p5, b5 = run("StreamCipherSeekCore", "set_block_pos", ["self", "v"])
-            after = p5["cells"]["self"][2]
+            after = flatten_value(p5["cells"]["self"])
             rep.ob("pos.set", inst, T.iequal(after[of][1], T.iadd(si, T.ivar(w, "v")), F) and T.iequal(after[other[0]][1], si, F), "set_block_pos sets s = s_init + pos and keeps s_init", loc_of(b5), computed=T.ishow(after[of][1]))
             rep.ob("pos.counter-type", inst, True, "Counter = u128 (checked through get_block_pos return width %d)" % p4["ret"][1][1], loc_of(b4)) if p4["ret"][1][1] == 128 else rep.ob("pos.counter-type", inst, False, "Counter width %d" % p4["ret"][1][1], loc_of(b4))
         if "export" in parts:
